@@ -286,6 +286,9 @@ def judge (sc : Scenario) (evs : List (Proc × Ev)) : List String :=
     | .shutRet k r =>
       if r == "nil" && !o.exited then
         { o with viol := s!"C07:Shutdown call {k} returned nil before all subscribers were released" :: o.viol }
+      else if r != "nil" && r != "closed" && r != "ctx" then
+        -- "Shutdown itself returns nil … or its context's error", a repeated call ErrProviderClosed: nothing else
+        { o with viol := s!"C07:Shutdown call {k} returned {r}" :: o.viol }
       else o
     | .subRet i r =>
       let o := { o with returnedSubs := i :: o.returnedSubs }
@@ -363,6 +366,8 @@ def factsTag (f : String) : List String :=
     if x.startsWith "SUBSCRIBE-DROPPED-JOES-VERDICT" then ["C06:" ++ x, "C17:" ++ x] else
     -- (C03 as well: a subscriber whose Subscribe call has returned is no longer registered — "never to any other subscriber")
     if x.startsWith "CALL-AFTER-RETURN" then ["C06:" ++ x, "C03:" ++ x] else
+    -- (C06: "Subscribe returns … nil when it ended through cancellation or shutdown"; C07: every pending Subscribe returns)
+    if x.startsWith "SUBSCRIBE-NEVER-RETURNED" then ["C06:" ++ x, "C07:" ++ x] else
     List.singleton <|
     if x.startsWith "CALL-AFTER-RETURN" then "C06:" ++ x
     else if x.startsWith "REPLAYER-USED-AFTER-PANIC" || x.startsWith "REJECTED-WITHOUT-REPLAY-ERROR"
